@@ -35,7 +35,7 @@ Fillers == {
     "S$ < \"b\"", "1 < S$", "#1", "7 MOD .4", "7 MOD 0", ".4", "1 / .0000001", "2 ^ 2", "1 \\ 2", "N% AND",
     "Arr(1 TO 2)", "1 TO", "(1 TO 2)", "N% * 99999", "32767 + N%", "8", "80", "25", "F$", "A", "Z", "X",
     "Qq", "Pq%", "\"T.TXT\"", "\"##\"", "", " ", ":", "'", ",", ";", "=", "1 TO 2", "-", "- -1", "(N%",
-    "N%)" }
+    "N%)", "\"abc\"+Chr$(200)", "Chr$(200)+\"abcd\"", "String$(5,200)", "\"aé\"" }
 
 Core == {
     "N%", "S$", "Arr(1)", "Arr", "Rec.X", "RecArr(1).X", "Rec", "Undef", "Undef(1)", "MyConst", "MySub",
@@ -50,7 +50,8 @@ OneSlot == {
     "elseif", "while", "do-while", "loop-until", "for-var", "for-step", "next-var", "case-is", "goto",
     "gosub", "on-error", "resume", "return", "label", "input", "line-input", "read", "data", "open",
     "open-len", "open-num", "close", "get", "input-file", "line-input-file", "kill", "environ", "def-seg",
-    "exit", "byref-arg", "byref-fn-arg", "type-member" }
+    "exit", "byref-arg", "byref-fn-arg", "type-member", "fixed-member", "fixed-var", "fixed-lset",
+    "using-field", "using-bang", "fixed-input" }
 
 TwoSlot == {
     "assign", "let", "print2", "print-using", "call1", "call-kw", "dim-arr", "dim-as", "redim", "redim-as",
